@@ -176,12 +176,22 @@ func (fr *Frame) binaryPut(st *State, b Value, x *Term, n int, bigEnd bool) {
 		fr.oblige(st, "bounds:binary", g, fmt.Sprintf("len(b) >= %d for encoding/binary write at %s", n, fr.v.pos(fr.curPos)))
 		st.pc = F.And(st.pc, g)
 	}
+	// little-endian byte decomposition by repeated word splitting (linear defining equations)
+	bytesLE := make([]*Term, n)
+	rest := x
+	for k := 0; k < n; k++ {
+		if k == n-1 {
+			bytesLE[k] = rest
+			break
+		}
+		bytesLE[k], rest = F.SplitWord(rest, 8, 8*(n-1-k), "byte")
+	}
 	for i := 0; i < n; i++ {
 		sh := i
 		if bigEnd {
 			sh = n - 1 - i
 		}
-		byteV := F.Mod(F.Div(x, F.Int(pow2(8*sh))), F.I64(256))
+		byteV := bytesLE[sh]
 		idx := F.Add(s.Off, F.I64(int64(i)))
 		pe := PE{T: idx}
 		if idx.IsConst() {
